@@ -100,23 +100,58 @@ def rule_match(ctx):
     mism = [t for t in ctests if isinstance(t.ast, ast.Compare) and isinstance(t.ast.ops[0], (ast.NotEq, ast.Eq)) and {unparse(t.ast.left), unparse(t.ast.comparators[0])} == {"response_header.correlation_id", cid}]
     ctx.ob(R, fi, fi.node, len(mism) == 1, "no comparison of the reply's correlation id with the head request's", text="has-comparison")
     nonsasl = [m for m, l in sasl.succ if l == SASL_F]
+    # An edge out of a test *licenses* delivery when, with it, the facts on every path say either that the ids are equal or that this
+    # is the 0.8.2 FindCoordinator quirk (reply id 0 to a non-zero request id) -- nothing weaker.
+    from ..rulekit import must_facts, atoms_of_test
+    mf = must_facts(c)
+    rh = "response_header.correlation_id"
+
+    def licensed(facts):
+        eq = (rh, "==", cid) in facts or (cid, "==", rh) in facts
+        quirk = ("resp_type", "is", "FindCoordinatorResponse_v0") in facts and ((cid, "!=", "0") in facts or ("0", "!=", cid) in facts) \
+            and ((rh, "==", "0") in facts or ("0", "==", rh) in facts)
+        return eq or quirk
+
+    def unlicensed_region(starts):
+        seen, work = set(), list(starts)
+        while work:
+            n = work.pop()
+            if n in seen:
+                continue
+            seen.add(n)
+            for m, l in n.succ:
+                if n.kind == "test" and l in ("T", "F") and licensed(mf[n] | atoms_of_test(n.ast, l == "T")):
+                    continue
+                work.append(m)
+        return seen
+    unl = unlicensed_region(nonsasl)
     if pop:
-        ok = pop[0] not in c.reachable(nonsasl, avoid=set(ctests), include_src=True)
+        ok = pop[0] not in unl
         ctx.ob(R, fi, pop[0], ok, "the head entry can be completed/popped without the correlation id of the frame being compared (e.g. when its waiter "
                                   "was cancelled or timed out): a desynchronised stream goes unnoticed", text="pop-after-comparison")
     sr = [n for n in c.calls(attr="set_result") if dotted(n.ast.func.value) == fut]
     for s in sr:
         if c.dominated_by_branch(sasl, SASL_T, s):
             continue
-        ok = s not in c.reachable(nonsasl, avoid=set(ctests), include_src=True)
+        ok = s not in unl
         ctx.ob(R, fi, s, ok, "a waiter can receive a reply whose correlation id was not compared", text="result-after-comparison")
     if len(mism) == 1:
         t = mism[0]
         bad = "T" if isinstance(t.ast.ops[0], ast.NotEq) else "F"
-        bb = c.reachable([m for m, l in t.succ if l == bad], include_src=True)
+        bsucc = [m for m, l in t.succ if l == bad]
+        bb = unlicensed_region(bsucc)
         cl = [n for n in bb if n.kind == "call" and call_attr(n.ast) == "close" and dotted(n.ast.func.value) == "self"]
         se = [n for n in bb if n.kind == "call" and call_attr(n.ast) == "set_exception" and dotted(n.ast.func.value) == fut]
-        ok = bool(cl) and bool(se) and (not pop or pop[0] not in bb) and not any(n in bb for n in sr) and c.exit not in c.reachable([m for m, l in t.succ if l == bad], avoid=set(cl), exc=False, include_src=True)
+        # the unlicensed part of the mismatch arm: fails the waiter, closes, and cannot reach the normal exit without closing
+        noclose = set()
+        work = list(bsucc)
+        while work:
+            n = work.pop()
+            if n in noclose or n in cl or n not in bb:
+                continue
+            noclose.add(n)
+            work += [m for m, l in n.succ if l != "exc"]
+        ok = bool(cl) and bool(se) and (not pop or pop[0] not in bb) and not any(n in bb for n in sr) and c.exit not in noclose
         ctx.ob(R, fi, t, ok, "a correlation mismatch does not fail the waiter, close the connection (failing all others) and stop", text="mismatch-closes")
         ctx.ob(R, fi, t, all("CorrelationIdError" in unparse(local_defs(c, unparse(arg_of(n.ast, 0)))[0].stmt.value) for n in se if isinstance(arg_of(n.ast, 0), ast.Name) and local_defs(c, unparse(arg_of(n.ast, 0)))), "mismatch error type", text="mismatch-error")
     # done futures: skipped but still popped
